@@ -25,8 +25,9 @@ import (
 )
 
 const (
-	rcReqTimeout = 400 * time.Millisecond
+	rcReqTimeout = 2500 * time.Millisecond
 	rcWait       = 1500 * time.Millisecond
+	rcShort      = 250 * time.Millisecond
 )
 
 type rcAct struct {
@@ -63,6 +64,8 @@ type rcSt struct {
 	Deliv   []rcDel    `json:"deliv"` // what the handlers received
 	Run     string     `json:"run"`   // running | stopped | failed:<error>
 	RegOK   bool       `json:"regok"` // every Register seen so far carried a valid signature of the client key
+	Seen    []bool     `json:"seen"`  // the request of call k has reached the service
+	SameH   bool       `json:"sameh"` // both registered handlers have received the same sequence
 	Outputs string     `json:"outputs"`
 }
 type rcLine struct {
@@ -97,6 +100,7 @@ type rcH struct {
 	clientKey bitcoin.Key
 	c         *RemoteClient
 	h         *rcHandler
+	h2        *rcHandler
 	interrupt chan interface{}
 	runDone   chan error
 	runRes    string
@@ -109,6 +113,8 @@ type rcH struct {
 	srv       []rcSrvMsg
 	regOK     bool
 	calls     []rcCall
+	seen      []bool // the request of call k has reached the service
+	buf       int    // messages waiting in the client's send buffer for the handshake
 	results   []chan [2]string
 	outputs   string
 	mu        sync.Mutex
@@ -147,7 +153,7 @@ func init() {
 }
 
 func newRC(t *testing.T, ctype ConnectionType, ncalls int) *rcH {
-	h := &rcH{t: t, ctype: ctype, conns: make(chan net.Conn, 10), in: make(chan *Message, 1000), regOK: true, h: &rcHandler{}}
+	h := &rcH{t: t, ctype: ctype, conns: make(chan net.Conn, 10), in: make(chan *Message, 1000), regOK: true, h: &rcHandler{}, h2: &rcHandler{}}
 	var err error
 	h.serverKey, _ = bitcoin.GenerateKey(bitcoin.MainNet)
 	h.otherKey, _ = bitcoin.GenerateKey(bitcoin.MainNet)
@@ -170,13 +176,14 @@ func newRC(t *testing.T, ctype ConnectionType, ncalls int) *rcH {
 	cfg.RequestTimeout = config.NewDuration(rcReqTimeout)
 	cfg.DialTimeout = config.NewDuration(time.Second)
 	cfg.HandshakeTimeout = config.NewDuration(20 * time.Second)
-	cfg.MessageChannelTimeout = config.NewDuration(2 * time.Second)
+	cfg.MessageChannelTimeout = config.NewDuration(3 * time.Second)
 	cfg.RetryError = config.NewDuration(10 * time.Minute)
 	h.c, err = NewRemoteClient(cfg)
 	if err != nil {
 		t.Fatal(err)
 	}
 	h.c.RegisterHandler(h.h)
+	h.c.RegisterHandler(h.h2)
 	h.interrupt = make(chan interface{})
 	h.runDone = make(chan error, 1)
 	h.runRes = "running"
@@ -187,6 +194,7 @@ func newRC(t *testing.T, ctype ConnectionType, ncalls int) *rcH {
 	go func() { h.runDone <- h.c.Run(ctx, h.interrupt) }()
 	for i := 0; i < ncalls; i++ {
 		h.calls = append(h.calls, rcCall{St: "idle", RKey: -1})
+		h.seen = append(h.seen, false)
 		h.results = append(h.results, nil)
 	}
 	if !h.newConn() {
@@ -286,9 +294,9 @@ func (h *rcH) record(m *Message) {
 		e.Hs = true
 		h.hs = true
 	case *GetTx:
-		e.Key = int(p.TxID[0])
+		e.Key = rcTxKey[p.TxID]
 	case *GetHeader:
-		e.Key = int(p.BlockHash[0])
+		e.Key = rcHdrKey[p.BlockHash]
 	case *GetHeaders:
 		e.Key = int(p.RequestHeight)
 	case *ReprocessTx:
@@ -302,6 +310,12 @@ func (h *rcH) record(m *Message) {
 	case *Ping:
 		return
 	}
+	for k, c := range h.calls {
+		if c.St == "pending" && !h.seen[k] && rcMsgName(c.Kind) == e.T && (c.Key == e.Key || c.Kind == "FeeQuotes") {
+			h.seen[k] = true
+			break
+		}
+	}
 	h.srv = append(h.srv, e)
 }
 
@@ -310,19 +324,21 @@ func (h *rcH) startCall(k int, kind string, key int) {
 	res := make(chan [2]string, 1)
 	h.results[k] = res
 	h.calls[k] = rcCall{St: "pending", Kind: kind, Key: key, RKey: -1}
+	h.seen[k] = false
 	go func() {
 		var err error
 		rkey := -1
 		switch kind {
 		case "GetTx":
 			var tx *wire.MsgTx
-			tx, err = h.c.GetTx(ctx, rcHash(key))
+			tx, err = h.c.GetTx(ctx, *rcTx(key).TxHash())
 			if err == nil && tx != nil {
 				rkey = rcTxKey[*tx.TxHash()]
 			}
 		case "GetHeader":
 			var hd *Header
-			hd, err = h.c.GetHeader(ctx, rcHash(key))
+			rh := rcHeader(key)
+			hd, err = h.c.GetHeader(ctx, *rh.BlockHash())
 			if err == nil && hd != nil {
 				rkey = int(hd.BlockHeight)
 			}
@@ -352,7 +368,11 @@ func (h *rcH) startCall(k int, kind string, key int) {
 		if err != nil {
 			rkey = -1
 			if re, ok := errorsCause(err).(RejectError); ok {
-				r = fmt.Sprintf("reject:%d:%s", re.Code, re.Description)
+				r = "reject"
+				rkey = -2
+				if re.Code == RejectCodeNotFound && re.Description == fmt.Sprintf("no-%d", key) {
+					rkey = key // the error carries the service's code and message
+				}
 			} else if errorsCause(err) == ErrTimeout {
 				r = "timeout"
 			} else {
@@ -427,8 +447,12 @@ func (h *rcH) kindType(kind string) uint64 {
 // response builds the service's answer for a call of (kind, key).
 func (h *rcH) response(kind string, key int, form string) MessagePayload {
 	hash := rcHash(key)
-	if kind == "SendTx" {
+	if kind == "SendTx" || kind == "GetTx" {
 		hash = *rcTx(key).TxHash()
+	}
+	if kind == "GetHeader" {
+		rh := rcHeader(key)
+		hash = *rh.BlockHash()
 	}
 	if form == "reject" {
 		r := &Reject{MessageType: h.kindType(kind), Hash: &hash, Code: RejectCodeNotFound, Message: fmt.Sprintf("no-%d", key)}
@@ -441,7 +465,7 @@ func (h *rcH) response(kind string, key int, form string) MessagePayload {
 	case "GetTx":
 		return &BaseTx{Tx: rcTx(key)}
 	case "GetHeader":
-		return &Header{Header: rcHeaderFor(hash), BlockHeight: uint32(key)}
+		return &Header{Header: rcHeader(key), BlockHeight: uint32(key)}
 	case "GetHeaders":
 		hd := rcHeader(key)
 		return &Headers{RequestHeight: int32(key), StartHeight: uint32(key), Headers: []*wire.BlockHeader{&hd}}
@@ -451,9 +475,6 @@ func (h *rcH) response(kind string, key int, form string) MessagePayload {
 	return &Accept{MessageType: h.kindType(kind), Hash: &hash}
 }
 
-// rcHeaderFor: GetHeader asks by block hash; the service answers with a header whose hash is that value. The test keys are
-// 32-byte values, so the answer for key k is the fixed header rcHeader(k) and the client is asked for *its* hash.
-func rcHeaderFor(h bitcoin.Hash32) wire.BlockHeader { return rcHeader(int(h[0])) }
 
 func (h *rcH) step(a rcAct) (res string) {
 	defer func() {
@@ -462,6 +483,9 @@ func (h *rcH) step(a rcAct) (res string) {
 		}
 	}()
 	ctx := logger.ContextWithNoLogger(context.Background())
+	if h.runRes != "running" {
+		return "run ended"
+	}
 	switch a.A {
 	case "Accept":
 		if h.conn == nil || h.reg == nil {
@@ -503,20 +527,24 @@ func (h *rcH) step(a rcAct) (res string) {
 			if h.ctype != ConnectionTypeFull {
 				h.hs = true
 			}
-			// queued requests are released by the handshake
-			h.pump(h.queued(), rcWait)
+			if h.ctype != ConnectionTypeFull {
+				h.pump(h.buf, rcWait) // queued requests are released by the handshake
+				h.buf = 0
+			}
 		} else {
 			select {
 			case err := <-h.runDone:
 				h.runRes = "failed:" + errorsCauseText(err)
 			case <-time.After(rcWait):
 			}
+			time.Sleep(20 * time.Millisecond) // whatever the client wrote while shutting down has arrived by now
 		}
 	case "Ready":
 		if err := h.c.Ready(ctx, uint64(a.K)); err != nil {
 			return "Ready: " + err.Error()
 		}
-		h.pump(1+h.queued(), rcWait)
+		h.pump(1+h.buf, rcWait)
+		h.buf = 0
 	case "Call":
 		if h.calls[a.K].St == "pending" {
 			return "slot busy"
@@ -525,6 +553,7 @@ func (h *rcH) step(a rcAct) (res string) {
 		if h.hs && h.conn != nil {
 			h.pump(1, rcWait)
 		} else {
+			h.buf++
 			time.Sleep(30 * time.Millisecond)
 			h.pump(0, 0)
 		}
@@ -541,14 +570,38 @@ func (h *rcH) step(a rcAct) (res string) {
 		if err := h.send(h.response(c.Kind, key, form)); err != nil {
 			return "send: " + err.Error()
 		}
-		if a.Kind == "wrongkey" || c.St != "pending" {
-			time.Sleep(60 * time.Millisecond)
-			h.collect(-1, 0)
-		} else {
-			h.collect(a.K, rcWait)
+		if form == "reject" && !h.c.IsAccepted(ctx) {
+			select { // a reject before the accept ends Run
+			case err := <-h.runDone:
+				h.runRes = "failed:" + errorsCauseText(err)
+			case <-time.After(rcWait):
+			}
+			return ""
 		}
+		h.barrier()
+		if c.St == "pending" {
+			h.collect(a.K, 40*time.Millisecond)
+		} else {
+			time.Sleep(10 * time.Millisecond)
+		}
+		h.collect(-1, 0)
+	case "RespondStale":
+		form := "ok"
+		if a.K != 0 {
+			form = "reject"
+		}
+		if err := h.send(h.response(a.Kind, a.Key, form)); err != nil {
+			return "send: " + err.Error()
+		}
+		h.barrier()
+		time.Sleep(10 * time.Millisecond)
+		h.collect(-1, 0)
 	case "Timeout":
-		h.collect(a.K, rcReqTimeout+rcWait)
+		for k := range h.calls {
+			if h.calls[k].St == "pending" {
+				h.collect(k, rcReqTimeout+rcWait)
+			}
+		}
 	case "Notify":
 		var p MessagePayload
 		switch a.Kind {
@@ -562,15 +615,10 @@ func (h *rcH) step(a rcAct) (res string) {
 			hd := rcHeader(a.K)
 			p = &Headers{RequestHeight: -7, StartHeight: uint32(a.K), Headers: []*wire.BlockHeader{&hd}}
 		}
-		before := len(h.h.snapshot())
 		if err := h.send(p); err != nil {
 			return "send: " + err.Error()
 		}
-		// a barrier: a request/response round trip through the same connection orders the notification before it
-		dl := time.Now().Add(150 * time.Millisecond)
-		for len(h.h.snapshot()) == before && time.Now().Before(dl) {
-			time.Sleep(2 * time.Millisecond)
-		}
+		h.barrier()
 	case "Drop":
 		if h.conn != nil {
 			h.conn.Close()
@@ -578,6 +626,10 @@ func (h *rcH) step(a rcAct) (res string) {
 		h.conn = nil
 		if !h.newConn() {
 			return "the client did not reconnect"
+		}
+		// the register message is written before the connection's routines (and flags) are set up
+		for dl := time.Now().Add(200 * time.Millisecond); h.c.IsAccepted(ctx) && time.Now().Before(dl); {
+			time.Sleep(time.Millisecond)
 		}
 	case "Stop":
 		close(h.interrupt)
@@ -591,10 +643,38 @@ func (h *rcH) step(a rcAct) (res string) {
 		case <-time.After(5 * time.Second):
 			h.runRes = "hung"
 		}
+		time.Sleep(20 * time.Millisecond)
 	default:
 		h.t.Fatalf("unknown action %q", a.A)
 	}
 	return ""
+}
+
+// barrier sends an unsolicited Headers message with a marker height: the client routes it through the request goroutine
+// (no match) and then through the single handler goroutine, so once the handler has seen it every message sent before
+// it has been routed and delivered.
+const rcMarker = 9999
+
+func (h *rcH) markers() int {
+	n := 0
+	for _, d := range h.h2.snapshot() { // the handler registered last
+		if d.Kind == "hdrs" && d.ID == rcMarker {
+			n++
+		}
+	}
+	return n
+}
+
+func (h *rcH) barrier() {
+	before := h.markers()
+	hd := rcHeader(0)
+	if err := h.send(&Headers{RequestHeight: -9, StartHeight: rcMarker, Headers: []*wire.BlockHeader{&hd}}); err != nil {
+		return
+	}
+	dl := time.Now().Add(rcWait)
+	for h.markers() == before && time.Now().Before(dl) {
+		time.Sleep(time.Millisecond)
+	}
 }
 
 func errorsCauseText(err error) string {
@@ -602,6 +682,12 @@ func errorsCauseText(err error) string {
 		return ""
 	}
 	c := errorsCause(err)
+	if _, ok := c.(RejectError); ok || strings.Contains(err.Error(), "Reject: (") {
+		return "rejected"
+	}
+	if os.Getenv("VERIF_DEBUG") != "" {
+		fmt.Fprintf(os.Stderr, "run error: %T %v / cause %T\n", err, err, c)
+	}
 	switch c {
 	case ErrWrongKey:
 		return "wrongkey"
@@ -623,23 +709,35 @@ func (hd *rcHandler) snapshot() []rcDel {
 	return append([]rcDel{}, hd.d...)
 }
 
-// queued: calls whose request has not reached the service on this connection
+// queued: pending calls whose request has not reached the service yet (they wait for the handshake)
 func (h *rcH) queued() int {
 	n := 0
-	for _, c := range h.calls {
-		if c.St == "pending" {
-			found := false
-			for _, m := range h.srv {
-				if m.Key == c.Key && strings.Contains(strings.ToLower(m.T), strings.ToLower(strings.TrimPrefix(c.Kind, "Mark"))[:3]) {
-					found = true
-				}
-			}
-			if !found {
-				n++
-			}
+	for i, c := range h.calls {
+		if c.St == "pending" && !h.seen[i] {
+			n++
 		}
 	}
 	return n
+}
+
+func rcMsgName(kind string) string {
+	switch kind {
+	case "GetTx":
+		return "get_tx"
+	case "GetHeader":
+		return "get_header"
+	case "GetHeaders":
+		return "get_headers"
+	case "ReprocessTx":
+		return "reprocess_tx"
+	case "MarkInvalid":
+		return "mark_header_invalid"
+	case "MarkNotInvalid":
+		return "mark_header_not_invalid"
+	case "SendTx":
+		return "send_tx"
+	}
+	return "get_fee_quotes"
 }
 
 func (h *rcH) project() rcSt {
@@ -655,9 +753,15 @@ func (h *rcH) project() rcSt {
 	}
 	s := rcSt{Ep: h.ep, Up: h.conn != nil, Acc: h.c.IsAccepted(ctx), Hs: h.hs, NextID: int(h.c.NextMessageID()),
 		Calls: append([]rcCall{}, h.calls...), Srv: append([]rcSrvMsg{}, h.srv...), Run: h.runRes, RegOK: h.regOK, Outputs: h.outputs}
+	s.Seen = append([]bool{}, h.seen...)
+	d1, d2 := h.h.snapshot(), h.h2.snapshot()
+	s.SameH = len(d1) == len(d2)
+	for i := 0; s.SameH && i < len(d1); i++ {
+		s.SameH = d1[i] == d2[i]
+	}
 	s.Deliv = []rcDel{}
-	for _, d := range h.h.snapshot() {
-		if d.Kind != "accepted" {
+	for _, d := range d1 {
+		if d.Kind != "accepted" && !(d.Kind == "hdrs" && d.ID == rcMarker) {
 			s.Deliv = append(s.Deliv, d)
 		}
 	}
@@ -684,6 +788,12 @@ func (h *rcH) close() {
 }
 
 func TestVerifReplayRemoteClient(t *testing.T) {
+	// scheduler gate: let the goroutines woken by a connection shutdown run before the socket is closed
+	verifHook = func(point string) {
+		if point == "conn.teardown" {
+			time.Sleep(5 * time.Millisecond)
+		}
+	}
 	var in struct {
 		NCalls  int `json:"ncalls"`
 		Scripts []struct {
@@ -742,4 +852,114 @@ func TestVerifReplayRemoteClient(t *testing.T) {
 		}
 	}
 	_ = sort.Ints
+}
+
+// ---- C16, outputs lookup: cases enumerated by spec/OutputsCases.tla ----
+
+type ocOut struct {
+	T     int    `json:"t"`
+	I     uint64 `json:"i"`
+	Value uint64 `json:"value"`
+}
+type ocRes struct {
+	Err  bool    `json:"err"`
+	Outs []ocOut `json:"outs"`
+}
+type ocCase struct {
+	Ops []struct {
+		T int    `json:"t"`
+		I uint64 `json:"i"`
+	} `json:"ops"`
+	Expect ocRes `json:"expect"`
+}
+type ocLine struct {
+	ID     int    `json:"id"`
+	Tr     int    `json:"tr"`
+	Got    ocRes  `json:"got"`
+	Expect ocRes  `json:"expect"`
+	Panic  string `json:"panic"`
+	Text   string `json:"text"`
+}
+
+func TestVerifOutputsCases(t *testing.T) {
+	var in struct {
+		Base    int      `json:"base"`
+		Scripts []ocCase `json:"scripts"`
+	}
+	raw, err := os.ReadFile(os.Getenv("VERIF_SCRIPTS"))
+	if err != nil {
+		t.Fatal(err)
+	}
+	if err := json.Unmarshal(raw, &in); err != nil {
+		t.Fatal(err)
+	}
+	f, _ := os.Create(os.Getenv("VERIF_TRACE"))
+	defer f.Close()
+	w := bufio.NewWriter(f)
+	defer w.Flush()
+	enc := json.NewEncoder(w)
+
+	h := newRC(t, ConnectionTypeFull, 0)
+	defer h.close()
+	if s := h.step(rcAct{A: "Accept", Kind: "valid"}); s != "" {
+		t.Fatal(s)
+	}
+	if s := h.step(rcAct{A: "Ready", K: 1}); s != "" {
+		t.Fatal(s)
+	}
+	// the service: answers every transaction request, knows transactions 1 and 2
+	go func() {
+		for m := range h.in {
+			g, ok := m.Payload.(*GetTx)
+			if !ok {
+				continue
+			}
+			k, known := rcTxKey[g.TxID]
+			if known && (k == 1 || k == 2) {
+				h.send(&BaseTx{Tx: rcTx(k)})
+			} else {
+				id := g.TxID
+				h.send(&Reject{MessageType: MessageTypeGetTx, Hash: &id, Code: RejectCodeNotFound, Message: "unknown"})
+			}
+		}
+	}()
+	ctx := logger.ContextWithNoLogger(context.Background())
+	for n, c := range in.Scripts {
+		ln := ocLine{ID: in.Base + n, Expect: c.Expect, Got: ocRes{Outs: []ocOut{}}}
+		if ln.Expect.Outs == nil {
+			ln.Expect.Outs = []ocOut{}
+		}
+		func() {
+			defer func() {
+				if e := recover(); e != nil {
+					ln.Panic = fmt.Sprint(e)
+				}
+			}()
+			var ops []wire.OutPoint
+			for _, o := range c.Ops {
+				ops = append(ops, wire.OutPoint{Hash: *rcTx(o.T).TxHash(), Index: uint32(o.I)})
+			}
+			res, err := h.c.GetOutputs(ctx, ops)
+			if err != nil {
+				ln.Got.Err = true
+				ln.Text = err.Error()
+				return
+			}
+			if len(res) != len(ops) {
+				ln.Text = fmt.Sprintf("%d results for %d outpoints", len(res), len(ops))
+			}
+			for _, u := range res {
+				o := ocOut{T: -1, I: uint64(u.Index), Value: u.Value}
+				if k, ok := rcTxKey[u.Hash]; ok {
+					o.T = k
+				}
+				// the locking script names <<t, i>>: it must belong to the outpoint it is reported for
+				if len(u.LockingScript) != 3 || int(u.LockingScript[1]) != o.T || uint64(u.LockingScript[2]) != o.I {
+					o.T = -2
+				}
+				ln.Got.Outs = append(ln.Got.Outs, o)
+			}
+		}()
+		enc.Encode(ln)
+	}
 }
